@@ -51,8 +51,23 @@ def make_chain_run(modname, observe_name):
     return _chain
 
 
-def chain_configs(tier):
-    return [c for c in kdriver.configs(tier) if c.n <= 2 and c.nvar <= 2][:3 if tier == "quick" else 8]
+def chain_configs(tier, deep=False):
+    """Small tables for the straight-line walks; deep=True adds tables that keep >= 2 unused slots
+    after an add (aliasing between in-memory entries needs those)."""
+    out = [c for c in kdriver.configs(tier) if c.n <= 2 and c.nvar <= 2][:3 if tier == "quick" else 8]
+    if deep:
+        tr = env_rotate()
+        out.append(kdriver.Config("chain-N3", 3, [], tr[0], 1))
+        out.append(kdriver.Config("chain-N14-new", 14, "new", tr[1][:2], 1))
+        if tier == "thorough":
+            out.append(kdriver.Config("chain-N4-opaque", 4, [kdriver.opaque_record(1)], tr[2], 1, junk=True))
+    return out
+
+
+def env_rotate():
+    from .. import env
+
+    return env.rotate(kdriver.TRIPLES)
 
 
 def replay_any(w, observe):
